@@ -94,6 +94,7 @@ type Translator struct {
 }
 
 type Frame struct {
+	extCC *ssa.CallCommon // the call being handed to externalCall (for arguments wrapped into interfaces)
 	tr       *Translator
 	fn       *ssa.Function
 	vals     map[ssa.Value]Val
